@@ -54,7 +54,8 @@ CFG = {
         "n": {"quick": 300, "thorough": 6000},
         "timeout": {"quick": 900, "thorough": 7200},
         "rule": "ops = directed list (each handshake function x {honest peer, adversary under its own key with one deviation at "
-                "a time, 11 malformed frames, reflection, replay from a second session, man-in-the-middle relay with field "
+                "a time, 11 malformed frames, 16 frames under keys nobody holds (small-order Ed25519 points with universal signatures / the "
+                "BLS point at infinity), reflection, replay from a second session, man-in-the-middle relay with field "
                 "rewriting}, PoolWatch boundary cases, two node scenarios incl. F8) + N random handshake scenarios + N/2 random "
                 "pool cases (4-16 calls, 0-2 forced-contention groups of 2-4 calls queued on the held sender lock each followed "
                 "by a quota probe, then often a concurrent batch) + N/25 random node cases (4-10 connection attempts / "
